@@ -2646,3 +2646,51 @@ def spec_auto_help_template(fns, consts):
 
 
 SPECS["C12"].append(spec_auto_help_template)
+
+
+# ------------------------------------------------------------------ C18: an option awaits a value only when none was attached
+
+def spec_complete_option_state(fns, consts):
+    """clap_complete::engine::complete, one pass of its token loop: the shadow parse enters the state
+    "option awaiting its value" (`ParseState::Opt((opt, 1))`) only on paths where the word carried no
+    attached value - `--opt` without `=value` (the value half of `to_long` is None) for long flags, nothing
+    left in the cluster (`next_value_os()` is None) for short flags - and, for long flags, only if the
+    option takes values."""
+    con = contracts.Contracts(fns, default_pure=True)
+    ctx = symex.Ctx(consts, con)
+    cfn = fns["complete"].get()
+    hdr = [b for b, blk in cfn.blocks.items() if any(re.search(r"= RawArgs::next\(", s) for s in blk["stmts"])]
+    ns = cfn.debug.get("next_state")
+    if len(hdr) != 1 or not ns:
+        raise Unsupported("clap_complete::engine::complete: loop header / next_state not found")
+    ex = symex.Exec(ctx, cfn, [("opq", "cmd"), ("opq", "args"), ("bv", ctx.sym("arg_index", "(_ BitVec 64)"), 64), ("opq", "current_dir")])
+    ex.run(start=hdr[0], stop_at=hdr[0], havoc_unassigned=True, cut_loops=True)
+    obs, n_long, n_short = [], 0, 0
+    for pc, env in ex.stops:
+        v = env.get(ns)
+        if not v or v[0] != "opq" or not re.match(r"^variant:.*::Opt\(\(", v[1]) or not v[1].endswith(",(_ bv1 64)))"):
+            continue
+        ca = env.get("#callargs", ())
+        nones = [c for c in ca if re.match(r"^Option::<&(std::ffi::)?OsStr>::is_none$", c[0])]
+        is_long = "as Iterator>::find::<" in v[1]
+        if is_long:
+            n_long += 1
+            good = [c for c in nones if re.search(r"to_long\(.*\)@Some\.0\.1$", c[1][0])]
+            tv = [c for c in ca if c[0] == "ValueRange::takes_values"]
+            ok = len(good) == 1 and len(tv) == 1
+            none_t = f"(not {ctx.keys.get('is_some(' + good[0][1][0] + ')')})" if ok else None
+            neg = "true" if (not ok or "None" in none_t) else f"(not (and {none_t} {ctx.keys.get(tv[0][2])}))"
+            obs.append({"fn": cfn.name, "block": "loop", "kind": "spec", "target": "complete_option_state", "msg": "a long option awaits a value only if it takes values and the word had no `=value` attached", "pc": list(pc), "neg": neg})
+        else:
+            n_short += 1
+            good = [c for c in nones if "next_value_os(" in c[1][0]]
+            ok = len(good) == 1
+            obs.append({"fn": cfn.name, "block": "loop", "kind": "spec", "target": "complete_option_state", "msg": "a short option awaits a value only if nothing is left in the cluster after it", "pc": list(pc),
+                        "neg": "true" if (not ok or not ctx.keys.get('is_some(' + good[0][1][0] + ')')) else ctx.keys.get('is_some(' + good[0][1][0] + ')')})
+    if n_long == 0 or n_short == 0:
+        obs.append({"fn": cfn.name, "block": "shape", "kind": "spec", "target": "complete_option_state", "msg": "complete: no path enters the option-awaits-value state through a long / short flag", "pc": [], "neg": "true"})
+    return ctx, obs, [_enc(cfn, ex, len(ex.stops))], con
+
+
+spec_complete_option_state.crate = "clap_complete"
+SPECS["C18"].append(spec_complete_option_state)
